@@ -15,7 +15,7 @@
 EXTENDS TLSPolicyOps, TLC, Json, IOUtils
 
 CONSTANTS KnownDeviations,   \* subset of {"Dev_ReloadOnSnapshotNoEffect"}
-          Sharing            \* impl-level model switch (TRUE after fix F21)
+          Sharing            \* impl-level model switch: "none" (F21 present) | "lazy" | "all" (after fix F21)
 
 TraceLog == ndJsonDeserialize(IOEnv.VF_TRACE)
 N == Len(TraceLog)
@@ -30,10 +30,10 @@ vars == <<l, cfg, listening, allowed, livem, diskm, bad, dev, drift, stats>>
 Cur == TraceLog[l]
 Known(d) == d \in KnownDeviations
 Tag(S) == {[l |-> l, why |-> w] : w \in S}
-CfgOf(c) == [min |-> c.min, max |-> c.max, auth |-> c.auth, ca |-> c.ca]
+CfgOf(c) == [min |-> c.min, max |-> c.max, auth |-> c.auth, ca |-> c.ca, skip |-> c.skip, suites |-> c.suites]
 ClOf(c)  == [lo |-> c.lo, hi |-> c.hi, cert |-> c.cert]
 
-Init == /\ l = 1 /\ cfg = [min |-> 0, max |-> 0, auth |-> "none", ca |-> FALSE] /\ listening = FALSE
+Init == /\ l = 1 /\ cfg = [min |-> 0, max |-> 0, auth |-> "none", ca |-> FALSE, skip |-> FALSE, suites |-> "default"] /\ listening = FALSE
         /\ allowed = {"A"} /\ livem = "A" /\ diskm = "A"
         /\ bad = {} /\ dev = {} /\ drift = {}
         /\ stats = [lines |-> 0, cfgs |-> 0, accepted |-> 0, hs |-> 0, completed |-> 0, below12 |-> 0, rot |-> 0]
@@ -71,20 +71,25 @@ StepRot ==
             \* new files on disk; the property does not say when (before the reload) they may show up
             /\ diskm' = Cur.arg /\ allowed' = allowed \cup {Cur.arg}
             /\ UNCHANGED <<livem, bad, dev, drift>>
-       [] Cur.act = "reload_snapshot" ->
-            \* the documented step: from now on new handshakes present the certificate on disk
+       [] Cur.act \in {"reload_snapshot", "reload_held", "reload_presnapshot"} ->
+            \* the documented step, on TLS settings returned by GetExportOptions just now ("snapshot"), earlier
+            \* after Listen ("held"), or before Listen ("presnapshot"): from now on new handshakes present the
+            \* certificate on disk
             /\ allowed' = IF Cur.ok THEN {diskm} ELSE allowed
-            /\ livem' = IF Cur.ok /\ Sharing THEN diskm ELSE livem
+            /\ livem' = IF Cur.ok /\ (Sharing = "all" \/ (Sharing = "lazy" /\ Cur.act # "reload_presnapshot")) THEN diskm ELSE livem
             /\ UNCHANGED <<diskm, bad, dev, drift>>
+       [] Cur.act = "update_from_presnapshot" ->
+            \* UpdateExportOptions with the options fetched before Listen: same settings, nothing to present differently
+            /\ UNCHANGED <<allowed, livem, diskm, bad, dev, drift>>
        [] Cur.act = "reload_caller" ->
             \* not the documented step: either effect is acceptable
             /\ allowed' = allowed \cup {diskm}
-            /\ livem' = IF Cur.ok /\ Sharing THEN diskm ELSE livem
+            /\ livem' = IF Cur.ok /\ Sharing = "all" THEN diskm ELSE livem
             /\ UNCHANGED <<diskm, bad, dev, drift>>
        [] Cur.act = "hs" ->
             LET okp == Cur.ok /\ Cur.presented \in allowed
                 \* F21: the reload went into a clone; the listener still presents what it presented before
-                isDev == Cur.ok /\ ~okp /\ Cur.presented = livem /\ ~Sharing /\ Known("Dev_ReloadOnSnapshotNoEffect") IN
+                isDev == Cur.ok /\ ~okp /\ Cur.presented = livem /\ Sharing = "none" /\ Known("Dev_ReloadOnSnapshotNoEffect") IN
             /\ bad' = bad \cup Tag(IF ~Cur.ok THEN {"handshake after a rotation step failed"}
                                    ELSE IF ~okp /\ ~isDev THEN {"new handshake does not present the reloaded certificate"} ELSE {})
             /\ dev' = dev \cup (IF isDev THEN {[l |-> l, name |-> "Dev_ReloadOnSnapshotNoEffect"]} ELSE {})
